@@ -18,7 +18,10 @@
 (*   ImplComplete   TotalsEqual(m, d)  =>  not rejected by the resource    *)
 (*                  comparison (errors.Is ErrManifestCrossValidation)      *)
 (*   GateSound      Submit accepted  =>  hash(submitted) = expected version*)
-(*                  /\ OracleMatch(m, d)                                   *)
+(*                  /\ OracleMatch(m, d)   (single and batched submissions)*)
+(*   AnnounceSound  every manifest announced on the bus (ManifestReceived) *)
+(*                  has the expected hash, is one of the submitted ones and*)
+(*                  matches the chain groups                               *)
 (*   HashStable     one manifest (field tree), one version: across repeats,*)
 (*                  JSON round trip, key orders, canonical re-hash         *)
 (*   HashSensitive  one version, one manifest: every single-field mutation *)
@@ -41,6 +44,7 @@ tvars == <<l, D, M>>
 IsPair(r) == r.kind = "pair"
 IsGate(r) == r.kind = "gate"
 IsHash(r) == r.kind = "hash"
+IsBatch(r) == r.kind = "batch"
 
 TInit == /\ l \in 1..N
          /\ D = (IF IsHash(Trace[l]) THEN <<>> ELSE Trace[l].d)
@@ -63,11 +67,26 @@ CompleteLine == IsPair(R) => \A k \in DOMAIN R.res : TotalsEqual(M, D) => ~R.res
 
 \* manager.validateRequest: the version the provider holds the tenant to
 Expected(r) == IF Len(r.updates) > 0 THEN r.updates[Len(r.updates)] ELSE r.chain
-GateLine == IsGate(R) => (R.accepted => (R.sub = Expected(R) /\ OracleMatch(M, D)))
+GateLine ==
+    /\ IsGate(R) => (R.accepted => (R.sub = Expected(R) /\ OracleMatch(M, D)))
+    \* a batch: several submissions queued while the manager's chain query was in flight, validated together
+    /\ IsBatch(R) => \A k \in DOMAIN R.subs :
+           R.subs[k].accepted => (R.subs[k].hid = Expected(R) /\ OracleMatch(R.subs[k].m, D))
+
+\* What the provider ANNOUNCES (event.ManifestReceived on the real bus: the manifest the cluster service deploys) is
+\* held to the same standard as what it replies: its hash is the expected version, it is one of the submitted
+\* manifests (hash ids are injective on everything observed, HashSensitive) and that one matches the chain groups.
+AnnounceLine ==
+    /\ IsGate(R) => \A i \in DOMAIN R.announced :
+           R.announced[i] = Expected(R) /\ R.announced[i] = R.sub /\ OracleMatch(M, D)
+    /\ IsBatch(R) => \A i \in DOMAIN R.announced :
+           /\ R.announced[i] = Expected(R)
+           /\ \E k \in DOMAIN R.subs : R.subs[k].hid = R.announced[i] /\ OracleMatch(R.subs[k].m, D)
 
 ImplSound    == (SoundLine \/ ~Bad("ImplSound"))
 ImplComplete == (CompleteLine \/ ~Bad("ImplComplete"))
 GateSound    == (GateLine \/ ~Bad("GateSound"))
+AnnounceSound == (AnnounceLine \/ ~Bad("AnnounceSound"))
 
 \* the hash observations, judged once (on the first line) as a whole
 HashObs  == SelectSeq(Trace, IsHash)
@@ -96,7 +115,14 @@ ConformPairLine ==
         /\ R.res[k].cross_gs = Cross(M, D)      \* ValidateManifestWithGroupSpecs, the client-side twin
         /\ R.res[k].resrej = ResRejected(M, D)
         /\ R.res[k].accepted = (ValidB(M, R.res[k].ballast) /\ Cross(M, D) = "ok")
+Announced(r) == {r.announced[i] : i \in DOMAIN r.announced}
 ConformGateLine ==
-    IsGate(R) => (R.accepted = (R.sub = Expected(R) /\ ValidB(M, R.ballast) /\ Cross(M, D) = "ok"))
+    /\ IsGate(R) => LET acc == (R.sub = Expected(R) /\ ValidB(M, R.ballast) /\ Cross(M, D) = "ok") IN
+                     /\ R.accepted = acc
+                     /\ Announced(R) = (IF acc THEN {R.sub} ELSE {})
+    /\ IsBatch(R) => LET acc(k) == /\ R.subs[k].hid = Expected(R)
+                                    /\ ValidB(R.subs[k].m, R.ballast) /\ Cross(R.subs[k].m, D) = "ok" IN
+                      /\ \A k \in DOMAIN R.subs : R.subs[k].accepted = acc(k)
+                      /\ Announced(R) = {R.subs[k].hid : k \in {j \in DOMAIN R.subs : acc(j)}}
 Conform == (ConformPairLine /\ ConformGateLine) \/ PrintT(<<"DRIFTLINE", l>>)
 =============================================================================
